@@ -6,7 +6,7 @@ From Coq Require Import List Arith Lia ZArith QArith PrimFloat.
 Import ListNotations.
 From AgileV Require Import Base.Prelude.
 From AgileV Require C09.Model C09.Proofs.
-From AgileV Require Import C11.Model C11.TreeProofs C11.SumProofs C11.MinProofs C11.RangeProofs C11.PerProofs C11.UpdateProofs C11.GenericProofs C11.Joint C11.JointProofs C11.Strict C11.StrictProofs.
+From AgileV Require Import C11.Model C11.TreeProofs C11.SumProofs C11.MinProofs C11.RangeProofs C11.PerProofs C11.UpdateProofs C11.GenericProofs C11.Joint C11.JointProofs C11.Strict C11.StrictProofs C11.PowProofs.
 Local Open Scope nat_scope.
 
 (* ---------------------------------------------------------------- the segment trees ------- *)
@@ -258,6 +258,21 @@ Theorem weights_spec : forall powb : Q -> Q,
     (forall i, i < size s -> (0 < powb (NP s i) / maxw)%Q /\ (powb (NP s i) / maxw <= 1)%Q).
 Proof. exact PerProofs.weights_spec. Qed.
 Print Assumptions weights_spec.
+
+(* x ** alpha and x ** -beta are parameters of the model; every function that satisfies the algebraic
+   definition of a rational power x^(a/b) resp. x^(-a/b) meets the hypotheses the theorems above put on
+   them (the correspondence check certifies CPython's tables against the same definition, up to 2^-40) *)
+Theorem power_is_admissible_powa : forall (a : Z) (b : positive) (f : Q -> Q), (0 <= a)%Z ->
+  (forall x, (0 < x)%Q -> (0 <= f x)%Q /\ (f x ^ (Zpos b) == x ^ a)%Q) ->
+  forall x, (0 < x)%Q -> (0 < f x)%Q.
+Proof. exact positive_power_spec. Qed.
+Print Assumptions power_is_admissible_powa.
+
+Theorem power_is_admissible_powb : forall (a : Z) (b : positive) (f : Q -> Q), (0 <= a)%Z ->
+  (forall x, (0 < x)%Q -> (0 < f x)%Q /\ (f x ^ (Zpos b) * x ^ a == 1)%Q) ->
+  (forall x, (0 < x)%Q -> (0 < f x)%Q) /\ (forall x y, (0 < x)%Q -> (x <= y)%Q -> (f y <= f x)%Q).
+Proof. exact negative_power_spec. Qed.
+Print Assumptions power_is_admissible_powb.
 
 (* clear(): afterwards the buffer behaves as a new one (trees, pointer and running maximum reset) *)
 Theorem clear_fresh : forall (powa : Q -> Q) m ops1 ops2,
